@@ -317,11 +317,17 @@ def glob (pat name : Str) : Bool := globAux (pat.length + name.length + 1) pat n
 /-- The match function `list` builds: empty pattern matches everything. -/
 def matchFn (pattern : Str) : Str → Bool := fun id => if pattern = [] then true else glob pattern id
 
+/-- `string(kv.Value)` of a directory entry: the id; the empty string for a nested bucket; an encoded object can
+not be resolved. -/
+def entryId : Val → Option Str
+  | .ref id => some id
+  | .bucket => some []
+  | .obj _ => none
+
 /-- The ids in the directory of an index (`tx.List(indexKey(index,"")+"/")`, optionally reversed); an entry that
 holds an encoded object instead of an id cannot be resolved (`none`). -/
 def indexIds (c : Cfg) (kv : KV) (index : Str) (rev : Bool) : List (Option Str) :=
-  let es := (kvList kv (indexDir c index)).map
-    (fun e => match e.2 with | .ref id => some id | .bucket => some [] | .obj _ => none)
+  let es := (kvList kv (indexDir c index)).map (fun e => entryId e.2)
   if rev then es.reverse else es
 
 def fetch (c : Cfg) (kv : KV) : List Str → Except Err (List Obj)
